@@ -98,6 +98,8 @@ def _observe_handle(case):
 
 
 def observe(case):  # noqa: F811
+    if case.get("family") == "closeall":
+        return _observe_closeall(case)
     if case.get("family") == "oddsrc":
         return _observe_odd(case)
     if case.get("family") == "handle":
@@ -106,12 +108,16 @@ def observe(case):  # noqa: F811
 
 
 def model_request(case):  # noqa: F811
+    if case.get("family") == "closeall":
+        return {"m": "cleanup", "behs": case["behs"], "inflight": case["inflight"]}
     if case.get("family") in ("handle", "oddsrc"):
         return None
     return s1.model_request(case)
 
 
 def features(case, obs):  # noqa: F811
+    if case.get("family") == "closeall":
+        return ["closeall:n=%d" % len(case["behs"]), "closeall:inflight=%s" % (case["inflight"] is not None)]
     if case.get("family") == "oddsrc":
         return ["oddsrc=" + case["bad"], "tool=" + case["tool"]]
     if case.get("family") == "handle":
@@ -120,7 +126,7 @@ def features(case, obs):  # noqa: F811
 
 
 def nontrivial(case, obs):  # noqa: F811
-    if case.get("family") in ("handle", "oddsrc"):
+    if case.get("family") in ("handle", "oddsrc", "closeall"):
         return True
     return s1.nontrivial(case, obs)
 
@@ -150,6 +156,7 @@ def _judge_handle(case, obs):
 def cases(tier, rng):
     yield from _handle_cases(tier)
     yield from _odd_cases()
+    yield from _closeall_cases()
     n = 0
     for case in s1.base_cases(tier, rng, s1.KINDS_ASYNC, s1.cons_cuts_and_throws, maxlen=3 if tier == "quick" else 4):
         if case["tool"] == "islice" and (case["params"].get("step", 1) == 3 or (case["params"].get("stop") or 0) > 3):
@@ -167,6 +174,8 @@ def _proj(vis, out):
 
 def judge(case, obs, model):
     issues = []
+    if case.get("family") == "closeall":
+        return _judge_closeall(case, obs, model)
     if case.get("family") == "oddsrc":
         return _judge_odd(case, obs)
     if case.get("family") == "handle":
@@ -298,3 +307,127 @@ def _judge_odd(case, obs):
         return [Issue("oracle", {"leaked": leaked, "srcs": obs["srcs"], "outs": obs["outs"]},
                       "other-sources-leaked-when-%s-raises:%s" % ("aclose" if case["bad"] == "close" else "aiter", case["tool"]))]
     return []
+
+
+# ---- the clean-up helper itself: _core.close_all vs Machines/Cleanup.lean and vs nested `async with ScopedIter` ----------
+# Behaviours per iterator: "ok" | "none" (no aclose attribute) | ["raises", e] (closes, then raises) | ["interrupted", e]
+# (a cancellation thrown into the suspended aclose(): for the library both are "aclose() raised e").
+
+
+class _CloseExc(BaseException):
+    def __init__(self, n):
+        super().__init__(n)
+        self.n = n
+
+
+def _closeall_cases():
+    import itertools as _it
+    alpha = ["ok", "none", ["raises", 1], ["raises", 2], ["interrupted", 3]]
+    for ln in range(0, 5):
+        for behs in _it.product(alpha, repeat=ln):
+            for infl in (None, 5):
+                yield {"tool": "close_all", "family": "closeall", "behs": list(behs), "inflight": infl, "params": {},
+                       "srcs": [{"kind": "aobj", "script": []}], "fns": [], "cons": {"fin": "close"}}
+
+
+def _observe_closeall(case):
+    import contextlib
+    from asyncstdlib._core import ScopedIter, close_all
+    from world import Susp, drive
+
+    class It:
+        def __init__(self, i, beh, log):
+            self.i, self.beh, self.log = i, beh, log
+
+        def __aiter__(self):
+            return self
+
+        async def __anext__(self):
+            raise StopAsyncIteration
+
+        async def aclose(self):
+            self.log.append(self.i)
+            if isinstance(self.beh, list) and self.beh[0] == "interrupted":
+                await Susp(["close", self.i])       # the driver throws the cancellation in here
+            if isinstance(self.beh, list):
+                raise _CloseExc(self.beh[1])
+
+    class NoClose:
+        def __aiter__(self):
+            return self
+
+        async def __anext__(self):
+            raise StopAsyncIteration
+
+    def mk(log):
+        return [NoClose() if b == "none" else It(i, b, log) for i, b in enumerate(case["behs"])]
+
+    def reply(i, tok):
+        # a suspended aclose() is cancelled: the exception it was going to raise is thrown in instead
+        return ("throw", _CloseExc(case["behs"][tok[1]][1]))
+
+    def run(coro):
+        r = drive(coro, reply)
+        return None if r.exc is None else (r.exc.n if isinstance(r.exc, _CloseExc) else ["other", type(r.exc).__name__])
+    infl = case["inflight"]
+    out = {}
+    log = []
+    out["robust"] = {"exc": run(close_all(mk(log))), "log": log}
+
+    async def in_finally(its):
+        try:
+            if infl is not None:
+                raise _CloseExc(infl)
+        finally:
+            await close_all(its)
+    log = []
+    out["finally"] = {"exc": run(in_finally(mk(log))), "log": log}
+
+    async def nested(its, inflight):
+        async with contextlib.AsyncExitStack() as st:
+            for it in reversed(its):
+                await st.enter_async_context(ScopedIter(it))
+            if inflight is not None:
+                raise _CloseExc(inflight)
+    log = []
+    out["nested"] = {"exc": run(nested(mk(log), None)), "log": log}
+    log = []
+    out["finally_nested"] = {"exc": run(nested(mk(log), infl)), "log": log}
+    out["async"] = {"out": ["closed"], "vis": [], "srcs": []}
+    return out
+
+
+def _judge_closeall(case, obs, model):
+    issues = []
+    behs = case["behs"]
+    closeable = [i for i, b in enumerate(behs) if b != "none"]
+    for where in ("robust", "finally"):
+        if obs[where]["log"] != closeable:
+            issues.append(Issue("oracle", {"where": where, "aclose_calls": obs[where]["log"], "closeable": closeable, "behs": behs},
+                                "close_all-skipped-or-repeated-an-iterator"))
+    fails = [b[1] for b in behs if isinstance(b, list)]
+    want = fails[-1] if fails else None
+    if obs["robust"]["exc"] != want:
+        issues.append(Issue("oracle", {"exc": obs["robust"]["exc"], "expected_last_failure": want, "behs": behs},
+                            "close_all-propagates-the-wrong-exception"))
+    if obs["finally"]["exc"] != (want if want is not None else case["inflight"]):
+        issues.append(Issue("oracle", {"exc": obs["finally"]["exc"], "behs": behs, "inflight": case["inflight"]},
+                            "close_all-in-finally-propagates-the-wrong-exception"))
+    if (obs["robust"], obs["finally"]) != (obs["nested"], obs["finally_nested"]) and not issues:
+        issues.append(Issue("oracle", {"close_all": [obs["robust"], obs["finally"]], "nested_scopes": [obs["nested"], obs["finally_nested"]]},
+                            "close_all-differs-from-nested-async-with"))
+    if model is not None:
+        if "error" in model:
+            issues.append(Issue("A", model))
+        else:
+            if [model["robust"]["log"], model["robust"]["exc"], model["finally"]] != \
+                    [obs["robust"]["log"], obs["robust"]["exc"], obs["finally"]["exc"]]:
+                issues.append(Issue("A", {"asyncstdlib": [obs["robust"], obs["finally"]], "model": [model["robust"], model["finally"]]}))
+            if [model["nested"]["log"], model["nested"]["exc"], model["finally_nested"]] != \
+                    [obs["nested"]["log"], obs["nested"]["exc"], obs["finally_nested"]["exc"]]:
+                issues.append(Issue("B", {"python_nested_with": [obs["nested"], obs["finally_nested"]],
+                                          "spec": [model["nested"], model["finally_nested"]]}))
+            if model["robust"]["log"] != model["nested"]["log"] or model["robust"]["exc"] != model["nested"]["exc"] \
+                    or model["finally"] != model["finally_nested"]:
+                issues.append(Issue("MS", model))
+    return issues
